@@ -1,11 +1,67 @@
 """C14 — I/O contexts complete each operation once with the true result; no stale state."""
+import json
 import k1
 from units import io
 LEVEL = "partial"
 
+# The direct monitors of harness/k1_epoll_io.cpp / k1_uring_io.cpp start their verdict with a tag that
+# names the defect class; a failure is reported under a key that names the defect instead of one key
+# per program ('<unit>/<program>/monitor').
+_TAGS = {
+    "STALE-REG": "finding6-stale-epoll-registration",
+    "LOST-ERR": "finding8-failed-syscall-never-completes",
+    "WRONG-ERRNO": "finding8-failed-syscall-wrong-errno",
+    "LATE-ACCESS": "finding15-stop-callback-written-after-done",
+    "DOUBLE-REG": "finding10-stop-callback-registered-twice",
+}
+
+
+class _Keyed:
+    """Check proxy: rewrites monitor violation keys from the verdict tag."""
+    def __init__(self, chk, ctx):
+        object.__setattr__(self, "_chk", chk)
+        object.__setattr__(self, "_ctx", ctx)
+    def __getattr__(self, n):
+        return getattr(self._chk, n)
+    def __setattr__(self, n, v):
+        setattr(self._chk, n, v)
+    def violation(self, key, replay_path, no_input=False, text=""):
+        if key.endswith("/monitor"):
+            tag = text.split(":")[0]
+            prog = key.split("/")[-2]
+            if tag in _TAGS:
+                key = "%s/%s" % (self._ctx, _TAGS[tag])
+                text = "[%s] %s" % (prog, text)
+                try:
+                    j = json.load(open(replay_path))
+                    text += "\n  replay: " + j.get("replay", "")
+                except Exception:
+                    pass
+            else:
+                key = "%s/monitor-%s/%s" % (self._ctx, (tag or "failed").lower(), prog)
+        return self._chk.violation(key, replay_path, no_input=no_input, text=text)
+
 
 def run(chk, replay=None):
+    chk.cov["trusted_base"] = [
+        "Coq 8.16.1 kernel (vm_compute conversions re-checked at Qed); no axioms (Print Assumptions closed) for every theorem in Properties_C14_*.v",
+        "extraction ExtrOcamlBasic only; ocaml/lockstep.ml, handlers/h_remotequeue.ml, h_iocancel.ml glue",
+        "harness: verif_shim.hpp + dsched (serialises real threads: sequential consistency assumed); c14_sys.hpp "
+        "(pass-through wrappers of epoll_wait/epoll_ctl/readv/writev/read/write: yield point + action; a blocking epoll_wait "
+        "becomes yield-and-poll; a dangling completion pointer returned by epoll_wait is reported and withheld from the library); "
+        "the drivers compile a private copy of io_epoll_context.cpp with these wrappers (the archive's copy is not linked)",
+        "PARTIAL - assumed, not verified: the kernel behaves as modelled (epoll registrations per descriptor, level-triggered "
+        "readiness, eventfd counter semantics, readv/writev results, pipe capacity); the models' kernel state is compared with the "
+        "real kernel only through the logged syscall results and /proc/self/fdinfo at each completion",
+        "modelled not verified here: the stop source internals (C03) - one linearisation point per registration / request_stop / "
+        "deregistration; the atomic_intrusive_queue at link level (C06 AtomicQueue); timers of the I/O contexts (C07's models)",
+        "model variant tied to the code: tools/units/io.py MODEL_VARIANT = %r" % io.VARIANT]
+    chk.cov["rule"] = ("K1: all schedules of each program with <= bound preemptions (truncated at maxruns) plus seeded random ones; "
+                       "distinct = distinct projected traces; non-trivial = at least two context switches among owned events")
+    chk.cov["model_variant"] = io.VARIANT
     chk.prove()
-    k1.run_unit(chk, io.EpollRemoteQueue())
-    k1.run_unit(chk, io.EpollIoCancel(0))
-    k1.run_unit(chk, io.EpollIoCancel(1))
+    k1.run_unit(_Keyed(chk, "io_epoll"), io.EpollRemoteQueue())
+    k1.run_unit(_Keyed(chk, "io_epoll"), io.EpollIoCancel(0))
+    k1.run_unit(_Keyed(chk, "io_epoll"), io.EpollIoCancel(1))
+    for u in io.extra_units():
+        k1.run_unit(_Keyed(chk, u.ctx), u)
